@@ -96,6 +96,21 @@ static void do_fracture(const J& g, W& w) {
     }
     w.kb("same_meta", same).kb("lat", ok).kv("err", 0);
     free_polys(res);
+    // the same call on a grid of 1e-9 (scaled coordinates beyond 32 bits, the precision write_gds
+    // passes): total area in 1/1000 square unit, largest piece, number of pieces
+    {
+        Polygon* q = mk(g["p"]);
+        Array<Polygon*> big = {};
+        q->fracture((uint64_t)g["limit"].i(), 1e-9, big);
+        double a = 0;
+        uint64_t mx = 0;
+        for (uint64_t i = 0; i < big.count; i++) {
+            a += fabs(big[i]->area());
+            if (big[i]->point_array.count > mx) mx = big[i]->point_array.count;
+        }
+        w.kv("big_area", (int64_t)llround(a * 1000)).kv("big_max", (int64_t)mx).kv("big_n", (int64_t)big.count);
+        free_polys(big);
+    }
 }
 
 // C01: a polygon longer than the vertex limit goes through write_gds(max_points) and read_gds;
@@ -240,6 +255,17 @@ static void do_slice(const J& g, W& w) {
     }
     w.end_arr();
     w.kb("lat", ok).kv("err", (int64_t)e);
+    // the same call on a grid of 1e-9: total area of all bins in 1/1000 square unit
+    {
+        Array<Polygon*>* bb = (Array<Polygon*>*)allocate_clear(nb * sizeof(Array<Polygon*>));
+        ErrorCode e2 = slice(*p, pos, g["axis"].s() == "x", 1e9, bb);
+        double a = 0;
+        for (uint64_t b = 0; b < nb; b++) {
+            for (uint64_t i = 0; i < bb[b].count; i++) a += fabs(bb[b][i]->area());
+            free_polys(bb[b]);
+        }
+        w.kv("big_area", (int64_t)llround(a * 1000)).kv("big_err", (int64_t)e2);
+    }
 }
 
 static void do_offset(const J& g, W& w) {
